@@ -688,6 +688,26 @@ func c11Units(thorough bool) []*explore.Unit {
 				return p
 			}
 			add(k, "compressed-valid", func(id uint32) []byte { return mk(id).bytes() }, true, false, codec)
+			// the same cellblocks as several blocks / chunks (a conforming server may cut anywhere)
+			for _, cuts := range [][]int{{9}, {40}, {30, 31}, {1, 2}} {
+				cuts := cuts
+				add(k, fmt.Sprintf("compressed-valid-blocks@%v", cuts), func(id uint32) []byte {
+					p := k.base(id)
+					var blocks [][][]byte
+					prev := 0
+					for _, c := range cuts {
+						if c > len(p.cells) {
+							c = len(p.cells)
+						}
+						blocks = append(blocks, [][]byte{p.cells[prev:c]})
+						prev = c
+					}
+					blocks = append(blocks, [][]byte{p.cells[prev:]})
+					p.cells = sim.BlockStreamEncode(blocks, sim.SnappyEncodeLiteral)
+					p.hdr.CellBlockMeta = &pb.CellBlockMeta{Length: u32p(uint32(len(p.cells)))}
+					return p.bytes()
+				}, true, false, codec)
+			}
 			nc := len(mk(1).cells)
 			for pos := 0; pos < nc && pos < 16; pos++ {
 				for _, v := range []byte{0x00, 0x01, 0x7f, 0xff} {
